@@ -300,6 +300,27 @@ def impl(case):
         out["cache"] = None
         out["unobservable"] = ["cache"]
     out["cached_run_equal"] = out["first"] == out["no_cache"]
+    if isinstance(case["doc"], (dict, list)):
+        # the document as JSON TEXT: evaluated, the returned values (and the root) edited by the caller, a patch applied to the
+        # same text, evaluated again - the text still denotes the same document
+        import json as _json
+        from jsonpath import JSONPatch
+        js = _json.dumps(case["doc"])
+
+        def again():
+            for v in c.findall(js, filter_context=ctx) + jsonpath.findall("$..*", js) + jsonpath.findall("$", js):
+                if isinstance(v, (dict, list)):
+                    v.clear()
+            try:
+                JSONPatch().add("/zz" if isinstance(case["doc"], dict) else "/-", {"a": 1}).apply(js)
+            except Exception:  # noqa: BLE001
+                pass
+            return [SX.canon(v) for v in c.findall(js, filter_context=ctx)]
+        want = [m[2] for m in out["first"]] if isinstance(out["first"], list) and out["first"][:1] != ["err"] else out["first"]
+        got = attempt(again)
+        out["text_history_ok"] = got == want
+        if not out["text_history_ok"]:
+            out["text_history_counterexample"] = {"got": got, "want": want}
     if _custom_case(case):
         from .evalbase import custom_functions_agree
         out["custom_functions"] = custom_functions_agree(case["doc"], case["ctx"])
@@ -354,6 +375,8 @@ def decode(sx, case):
     model = {"text": render(case), "first": ms, "again": ms, "hundredth": ms, "no_cache": ms, "interleaved_ok": True, "mutated_in_place_ok": True,
              "threads_agree": True, "threads_first": vals, "doc_unchanged": True, "ctx_unchanged": True,
              "query_unchanged": True, "recompiled_equal": True}
+    if isinstance(case["doc"], (dict, list)):
+        model["text_history_ok"] = True
     if _custom_case(case):
         model["custom_functions"] = "same"
     model["cache"] = [[x[0] == "true", [[int(i) for i in pos] for pos in x[1]]] for x in extra.get("cache", [])]
@@ -361,6 +384,8 @@ def decode(sx, case):
     spec_ = {k: [[m[0], m[1]] for m in nodes] for k in ("first", "again", "hundredth", "no_cache")}
     spec_.update({"cached_run_equal": True, "interleaved_ok": True, "mutated_in_place_ok": True, "threads_agree": True, "threads_first": [m[1] for m in nodes], "doc_unchanged": True,
                   "ctx_unchanged": True, "query_unchanged": True, "recompiled_equal": True})
+    if isinstance(case["doc"], (dict, list)):
+        spec_["text_history_ok"] = True
     if _custom_case(case):
         spec_["custom_functions"] = "same"
     return {"model": model, "spec": spec_, "in_domain": ext[1] == "true" and wf[1] == "true"}
@@ -378,6 +403,8 @@ def project(case, res, dec=None):
         out[k] = res[k]
     if "custom_functions" in res:
         out["custom_functions"] = res["custom_functions"]
+    if "text_history_ok" in res:
+        out["text_history_ok"] = res["text_history_ok"]
     return out
 
 
